@@ -332,6 +332,99 @@ def _late_bound_tempfile_unlink():
 _late_bound_tempfile_unlink()
 
 
+# ------------------------------------------------------------------ routers
+# Code that binds a function at import time (`from os import replace`, `from io import open`,
+# a default argument) would keep the real function and walk past the simulated file system. So
+# every function a window takes over is replaced ONCE, before the system under test is imported,
+# by a stable router; a window only changes where the router leads. Outside a window it leads
+# to the real function.
+_ROUTES = {}  # (module name, attribute) -> [module, real function, current target, router]
+_ROUTED_POSIXPATH = ("samefile", "exists", "isfile", "isdir", "islink", "lexists")
+
+
+def _make_router(mod, name):
+    key = (mod.__name__, name)
+    if key in _ROUTES or not hasattr(mod, name):
+        return
+    real = getattr(mod, name)
+    cell = [mod, real, real, None]
+
+    def router(*a, **k):
+        return cell[2](*a, **k)
+
+    for attr in ("__name__", "__qualname__", "__doc__"):
+        try:
+            setattr(router, attr, getattr(real, attr))
+        except (AttributeError, TypeError):
+            pass
+    router._verif_real = real
+    cell[3] = router
+    _ROUTES[key] = cell
+    setattr(mod, name, router)
+
+
+def install_routers() -> None:
+    """Idempotent. Must run before the system under test is imported."""
+    _make_router(builtins, "open")
+    _make_router(io, "open")
+    for name in _OS_FUNCS + _UNMODELLED + ("_exit",):
+        _make_router(os, name)
+    for name in _ROUTED_POSIXPATH:
+        _make_router(posixpath, name)
+    try:
+        import fcntl as _fcntl
+
+        for name in ("flock", "lockf"):
+            _make_router(_fcntl, name)
+    except ImportError:
+        pass
+
+
+def _routes_to_window() -> None:
+    """After a window has put its functions into the modules: lead the routers there and put
+    the routers back into the modules."""
+    for (modname, name), cell in _ROUTES.items():
+        mod, real, _, router = cell
+        cur = getattr(mod, name)
+        if cur is not router:
+            cell[2] = cur
+            setattr(mod, name, router)
+
+
+def _routes_to_real() -> None:
+    for (modname, name), cell in _ROUTES.items():
+        mod, real, _, router = cell
+        cell[2] = real
+        if getattr(mod, name, None) is not router:
+            setattr(mod, name, router)
+
+
+class _Capture(io.TextIOWrapper):
+    """sys.stdout / sys.stderr inside a window: a genuine text stream (reconfigure, buffer,
+    encoding, fileno all there) whose bytes the simulator keeps."""
+
+    def __init__(self, fd: int):
+        self._bytes = io.BytesIO()
+        super().__init__(self._bytes, encoding="utf-8", errors="backslashreplace", write_through=True)
+        self._fd = fd
+
+    def fileno(self):
+        return self._fd
+
+    def isatty(self):
+        return False
+
+    def getvalue(self) -> str:
+        try:
+            self.flush()
+        except ValueError:
+            pass
+        return self._bytes.getvalue().decode("utf-8", "replace")
+
+    def close(self):
+        pass  # closing sys.stdout must not lose what was captured
+
+
 # ------------------------------------------------------------------- window
 _OS_FUNCS = ("listxattr", "getxattr", "setxattr", "removexattr", "lseek", "sendfile", "stat", "lstat", "getcwd", "chdir", "readlink", "listdir", "mkdir", "unlink", "remove", "rmdir", "rename", "replace", "access", "open", "write", "read", "close", "fsync", "fdatasync", "fstat", "utime", "scandir", "fdopen", "chmod", "lchmod", "fchmod", "chown", "lchown", "fchown", "symlink", "link", "truncate", "ftruncate")
 _UNMODELLED = ("mkfifo", "mknod", "statvfs", "fwalk", "dup", "dup2", "pipe", "openpty", "copy_file_range", "splice", "pread", "pwrite", "readv", "writev")
@@ -346,8 +439,8 @@ class Window:
         self.tw = tw
         self.argv = argv
         self.saved = {}
-        self.stderr = io.StringIO()
-        self.stdout = io.StringIO()
+        self.stderr = _Capture(2)
+        self.stdout = _Capture(1)
 
     def __enter__(self):
         fs = self.fs
@@ -372,7 +465,8 @@ class Window:
         os.rename = fs.rename
         os.replace = fs.rename
         os.access = fs.access
-        real_write, real_read, real_close, real_fsync, real_fstat = sv["os.write"], sv["os.read"], sv["os.close"], sv["os.fsync"], sv["os.fstat"]
+        _r = lambda f: getattr(f, "_verif_real", f)  # (the saved attribute may be a router)
+        real_write, real_read, real_close, real_fsync, real_fstat = _r(sv["os.write"]), _r(sv["os.read"]), _r(sv["os.close"]), _r(sv["os.fsync"]), _r(sv["os.fstat"])
         os.open = fs.os_open
         os.write = lambda fd, data: fs.os_write(fd, data) if fd >= fs.FD_BASE else real_write(fd, data)
         os.read = lambda fd, n: fs.os_read(fd, n) if fd >= fs.FD_BASE else real_read(fd, n)
@@ -403,7 +497,7 @@ class Window:
 
         if hasattr(os, "listxattr"):
             os.listxattr, os.getxattr, os.setxattr, os.removexattr = _listxattr, _getxattr, _setxattr, _getxattr
-        real_lseek, real_sendfile = sv["os.lseek"], sv.get("os.sendfile")
+        real_lseek, real_sendfile = _r(sv["os.lseek"]), (_r(sv["os.sendfile"]) if sv.get("os.sendfile") is not None else None)
         os.lseek = lambda fd, pos, how: fs.os_lseek(fd, pos, how) if fd >= fs.FD_BASE else real_lseek(fd, pos, how)
         if real_sendfile is not None:
             os.sendfile = lambda out_fd, in_fd, offset, count: fs.os_sendfile(out_fd, in_fd, offset, count) if (out_fd >= fs.FD_BASE or in_fd >= fs.FD_BASE) else real_sendfile(out_fd, in_fd, offset, count)
@@ -412,7 +506,7 @@ class Window:
 
             for name in ("flock", "lockf"):
                 sv["fcntl." + name] = getattr(_fcntl, name)
-                setattr(_fcntl, name, (lambda real: lambda fd, *a: None if (fd if isinstance(fd, int) else fd.fileno()) >= fs.FD_BASE else real(fd, *a))(getattr(_fcntl, name)))
+                setattr(_fcntl, name, (lambda real: lambda fd, *a: None if (fd if isinstance(fd, int) else fd.fileno()) >= fs.FD_BASE else real(fd, *a))(_r(getattr(_fcntl, name))))
         except ImportError:
             pass
         os.utime = fs.utime
@@ -428,7 +522,7 @@ class Window:
         os.truncate = fs.truncate
         os.ftruncate = fs.truncate
         os.scandir = fs.scandir
-        os.fdopen = lambda fd, *a, **k: fs.fdopen(fd, *a, **k) if fd >= fs.FD_BASE else sv["os.fdopen"](fd, *a, **k)
+        os.fdopen = lambda fd, *a, **k: fs.fdopen(fd, *a, **k) if fd >= fs.FD_BASE else _r(sv["os.fdopen"])(fd, *a, **k)
 
         def unmodelled(name):
             def f(*a, **k):
@@ -477,6 +571,9 @@ class Window:
         sv["os._exit"] = os._exit
 
         def sim_exit(code=0):
+            # os._exit flushes nothing: what sits in userspace buffers of open files is lost
+            for sf in list(fs.open_files):
+                sf._abandon()
             raise SimExit(code)
 
         os._exit = sim_exit
@@ -486,6 +583,8 @@ class Window:
         # extension, os.write(2, ...)) still count as "reported": capture descriptor 2 as well
         self.fd2_len = 0
         self._fd2 = None
+        self.fd1_len = 0
+        self._fd1 = None
         if _R_MEMFD is not None:
             try:
                 sv["sys.stderr"].flush()
@@ -494,8 +593,17 @@ class Window:
             mem = _R_MEMFD("verif-fd2")
             self._fd2 = (_R_DUP(2), mem)
             _R_DUP2(mem, 2)
+            # descriptor 1 likewise (the worker's result channel is a duplicate made earlier)
+            try:
+                sv["sys.stdout"].flush()
+            except Exception:
+                pass
+            mem1 = _R_MEMFD("verif-fd1")
+            self._fd1 = (_R_DUP(1), mem1)
+            _R_DUP2(mem1, 1)
         if self.argv is not None:
             sys.argv = list(self.argv)
+        _routes_to_window()
         self.tw.in_window = True
         return self
 
@@ -512,6 +620,16 @@ class Window:
                 _R_CLOSE(mem)
                 _R_CLOSE(saved2)
             self._fd2 = None
+        if self._fd1 is not None:
+            saved1, mem1 = self._fd1
+            _R_DUP2(saved1, 1)
+            try:
+                self.fd1_len = _R_FSTAT(mem1).st_size
+                self.fd1_text = _R_PREAD(mem1, min(self.fd1_len, 4000), 0).decode("utf-8", "replace") if self.fd1_len else ""
+            finally:
+                _R_CLOSE(mem1)
+                _R_CLOSE(saved1)
+            self._fd1 = None
         builtins.open = sv["builtins.open"]
         io.open = sv["io.open"]
         for key, val in sv.items():
@@ -525,4 +643,5 @@ class Window:
 
                 setattr(_fcntl, name, val)
         sys.stderr, sys.stdout, sys.argv = sv["sys.stderr"], sv["sys.stdout"], sv["sys.argv"]
+        _routes_to_real()
         return False
